@@ -32,6 +32,10 @@ CLAIMED = {
             "explicit-state exploration of mutation/external-edit/query histories to depth 3 (4-5 thorough) on one long-lived real Project, differential against a brand-new Project after every sequence",
             "Every enabled sequence over 25 events (13 mutations through rope, 6 changes behind rope's back + validate(), 6 cache-warming queries) is replayed on a long-lived real Project with an observing AutoImport index; then files, python files, find_module, per-module source/names/definition locations/inferred types and attribute sets, find_occurrences and the AutoImport index are compared with a brand-new Project (fresh index) on the same directory.",
             "the fresh project is the reference; time stamps owned by a logical clock; AutoImport indexes filled with update_resource (no process pool); bounded depth and alphabet", "3/C13"),
+    "C03": ("exploration",
+            "bounded-exhaustive enumeration of (function body, region, options) with CPython execution before/after as the oracle",
+            "All bodies of <=2 (3) statements over 20 data-flow atoms in a function and a method host x every contiguous statement run at every nesting level and every sub-expression x ExtractMethod/ExtractVariable x similar/global_/kind options are refactored with the real code; each performed result is compiled and executed for inputs 0,1,2 and must print what the original printed; refusals must leave the disk unchanged.",
+            "behaviour is compared on the enumerated inputs only; bounded body length and atom alphabet", "3/C03"),
 }
 
 PENDING_REASON = "check not built yet in this session (see DESIGN.md section 8 build order); nothing is claimed for it"
